@@ -86,6 +86,10 @@ pub enum Stage {
     FlatMap(u8, Option<Simple>),
     /// concat!(upstream, upstream): the same source value subscribed twice in sequence
     ConcatSelf,
+    /// concat!(upstream, from_iter(a), from_iter(b)): three members, the middle one possibly empty
+    Concat3After(Vec<i64>, Vec<i64>),
+    /// concat!(from_iter(a), upstream, from_iter(b))
+    Concat3Middle(Vec<i64>, Vec<i64>),
     /// map(_ -> P) then flatten, where P is ONE sub-pipeline value returned for every element
     FlatMapShared(Vec<i64>, Option<Simple>),
 }
@@ -144,6 +148,12 @@ pub fn apply_stage(s: &Stage, src: Src) -> Src {
             Arc::new(callbag::flatten(mapped))
         },
         Stage::ConcatSelf => Arc::new(callbag::concat(vec![src.clone(), src].into_boxed_slice())),
+        Stage::Concat3After(a, b) => Arc::new(callbag::concat(
+            vec![src, sub_pipeline(a, &None, 1), sub_pipeline(b, &None, 1)].into_boxed_slice(),
+        )),
+        Stage::Concat3Middle(a, b) => Arc::new(callbag::concat(
+            vec![sub_pipeline(a, &None, 1), src, sub_pipeline(b, &None, 1)].into_boxed_slice(),
+        )),
         Stage::FlatMapShared(ys, st) => {
             let shared = sub_pipeline(ys, st, 2);
             let mapped: Source<Src> = callbag::map(move |_x: i64| shared.clone())(src);
@@ -463,6 +473,16 @@ fn rbuild(stages: &[Stage], input: &Input) -> Box<dyn Node> {
                 Stage::ConcatBefore(ys, st) => Box::new(RChain { a: rsub(ys, st, 1), b: node, on_b: false }),
                 Stage::FlatMap(kind, st) => Box::new(RFlat { outer: node, kind: *kind, st: st.clone(), cur: None, done: false }),
                 Stage::ConcatSelf => Box::new(RChain { a: node, b: rbuild(rest, input), on_b: false }),
+                Stage::Concat3After(a, b) => Box::new(RChain {
+                    a: Box::new(RChain { a: node, b: rsub(a, &None, 1), on_b: false }),
+                    b: rsub(b, &None, 1),
+                    on_b: false,
+                }),
+                Stage::Concat3Middle(a, b) => Box::new(RChain {
+                    a: Box::new(RChain { a: rsub(a, &None, 1), b: node, on_b: false }),
+                    b: rsub(b, &None, 1),
+                    on_b: false,
+                }),
                 Stage::FlatMapShared(ys, st) => Box::new(RFlatShared { outer: node, ys: ys.clone(), st: st.clone(), cur: None, done: false }),
             }
         },
@@ -533,6 +553,12 @@ pub fn alphabet(thorough: bool) -> Vec<Stage> {
         }
     }
     v.push(Stage::ConcatSelf);
+    v.push(Stage::Concat3After(vec![], vec![8]));
+    v.push(Stage::Concat3Middle(vec![7], vec![8]));
+    if thorough {
+        v.push(Stage::Concat3After(vec![7], vec![]));
+        v.push(Stage::Concat3Middle(vec![], vec![8]));
+    }
     v.push(Stage::FlatMapShared(vec![7, 8], None));
     v.push(Stage::FlatMapShared(vec![7, 8, 9], Some(Simple::Skip(1))));
     if thorough {
